@@ -20,6 +20,7 @@ pub enum RuntimeError {
     InputPastEndOfFile,
     LinterError(LintError),
     OutOfData,
+    OutOfStackSpace,
     Overflow,
     ReturnWithoutGoSub,
     SubscriptOutOfRange,
@@ -44,6 +45,7 @@ impl RuntimeError {
             Self::FileAlreadyOpen => 55,
             Self::InputPastEndOfFile => 62,
             Self::OutOfData => 4,
+            Self::OutOfStackSpace => 28,
             Self::VariableRequired => 40,
             Self::FieldOverflow => 50,
             Self::BadFileMode => 54,
